@@ -62,8 +62,19 @@ func TestVF_C20_Keystream(t *testing.T) {
 		}
 		close(start)
 		wg.Wait()
-		total := c.counter
+		// the generator's final counter, observed through its API only: the block handed out to one
+		// more read after all goroutines have finished
 		blk, _ := aes.NewCipher(seed[:])
+		var last, lastPt [16]byte
+		if _, err := c.Read(last[:]); err != nil {
+			t.Fatal(err)
+		}
+		blk.Decrypt(lastPt[:], last[:])
+		total := binary.LittleEndian.Uint64(lastPt[:8])
+		if total > 1<<24 {
+			rec.FailT("keystream-partition-violated", map[string]any{"goroutines": g, "what": "final read is not a keystream block of a plausible counter"})
+			continue
+		}
 		stream := make([][16]byte, total)
 		index := make(map[[16]byte]uint64, total)
 		for k := uint64(0); k < total; k++ {
